@@ -53,6 +53,15 @@ CHECKS['C03'] = {
     'note': 'Trusted: pyvc; toy LM stands for all history-dependent LMs; real LMWrapper (torch) not verified; LM bookkeeping invariant of the beam loop not proved.',
 }
 
+CHECKS['C04'] = {
+    'level': 'other',
+    'technique': 'bounded stand-in: run-time contract (collapse of the arg-max path) on the real torch/numpy decoders, exhaustive over all arg-max paths of stated shapes',
+    'text': ('BOUNDED, not proved: greedy_decode_ctc, PytorchEngineLineOCR.run_ocr (stub network) and GreedyDecoder equal the CTC collapse of the '
+             'arg-max path for every arg-max path T<=5 (3 classes) / T<=3 (4 classes) in three score styles incl. exact ties, and for all batches of '
+             'two paths T<=3; both decoders agree row by row.'),
+    'note': 'Trusted: A3 arg-max = first maximiser in numpy and torch; torch tensor code is outside the VC generator, hence no unbounded claim; 2-D input branch not covered.',
+}
+
 NOT_APPLICABLE = {
     'C20': ('equality up to round-off of float tensors produced by torch C++ kernels through module-resident caches across calls: no contract '
             'within reach can state it over reals, no finite domain makes a bounded check exhaustive; a random differential test would be a different technique (DESIGN.md §6)'),
